@@ -182,6 +182,16 @@ def check(res, tier):
         if rr.cls != "ok" or rr.stdout != exp:
             res.violation("program:" + cfg.name(), "compiled text operations disagree with the code-point view",
                           {"program": prog, "expected_stdout": exp, "implementation": rr.as_dict(), "config": cfg.name()})
+    # ---- the loop over a Text hands out code points whatever the body does with the loop variable (a copy): letters of
+    #      every encoded width replaced in the body by letters of every other width — judged by the L2 evaluator
+    from . import C01 as _c01
+    from .. import evalcorr
+    fa = [(lab, p) for lab, p in _c01.loop_programs() if lab.startswith("foreach-assign-text")]
+    stfa = evalcorr.judge_programs(res, ddp, model, [p for _, p in fa], [pipeline.Config(opt=1)] if not full else [pipeline.Config(opt=0), pipeline.Config(opt=2)],
+                                   "foreach-assign", max_report=3)
+    for lab, _ in fa:
+        res.nontrivial(lab)
+    res.extra["foreach_assign_programs"] = dict(stfa)
     # ---- library iteration: Duden/TextIterator keeps byte pointers into the text and answers in code points
     #      (index, current letter, letters left / done, rest, text so far) at every position of a walk; DDP.Duden.iterWalk is the code-point view
     from . import C17 as _c17
